@@ -32,6 +32,7 @@ class SymTensor(torch.Tensor):
             sym = a
         r = torch.Tensor._make_wrapper_subclass(cls, tuple(sym.shape), dtype=dtype)
         r.sym = sym
+        r._masked_by = None
         return r
 
     @classmethod
@@ -289,33 +290,76 @@ class SymScalar:
             return o._t()
         return o
 
+    @staticmethod
+    def _ok(o):
+        return isinstance(o, (SymScalar, int, float, bool, torch.Tensor, np.generic))
+
     def __add__(self, o):
+        if not self._ok(o):
+            return NotImplemented
         return self._wrap(torch.add(self._t(), self._other(o)))
 
     __radd__ = __add__
 
     def __sub__(self, o):
+        if not self._ok(o):
+            return NotImplemented
         return self._wrap(torch.sub(self._t(), self._other(o)))
 
     def __rsub__(self, o):
+        if not self._ok(o):
+            return NotImplemented
         return self._wrap(HANDLERS["__rsub__"](self._t(), self._other(o)))
 
     def __mul__(self, o):
+        if not self._ok(o):
+            return NotImplemented
         return self._wrap(torch.mul(self._t(), self._other(o)))
 
     __rmul__ = __mul__
 
     def __truediv__(self, o):
+        if not self._ok(o):
+            return NotImplemented
         return self._wrap(torch.div(self._t(), self._other(o)))
 
     def __rtruediv__(self, o):
+        if not self._ok(o):
+            return NotImplemented
         return self._wrap(HANDLERS["__rtruediv__"](self._t(), self._other(o)))
 
     def __neg__(self):
         return self._wrap(torch.neg(self._t()))
 
+    def _int_terms(self, o):
+        a = self.term
+        b = o.term if isinstance(o, SymScalar) else (z3.IntVal(int(o)) if isinstance(o, int) and not isinstance(o, bool) else None)
+        if b is None or not (z3.is_int(a) and z3.is_int(b)):
+            raise Unsupported("floor division / modulo only on integer-sorted symbolic scalars (use mode 'F', where ints are z3 Ints)")
+        return a, b
+
+    def __floordiv__(self, o):
+        a, b = self._int_terms(o)
+        # python floor division; z3's integer div is euclidean: identical for a positive divisor, adjusted otherwise
+        q = z3.If(b > 0, a / b, z3.If(a % b == 0, a / b, a / b - 1)) if True else a / b
+        T.assume(b != 0) if False else None
+        return SymScalar(q, torch.int64)
+
+    def __mod__(self, o):
+        a, b = self._int_terms(o)
+        return SymScalar(z3.If(b > 0, a % b, z3.If(a % b == 0, z3.IntVal(0), a % b + b)), torch.int64)
+
+    def __rfloordiv__(self, o):
+        return SymScalar(z3.IntVal(int(o)), torch.int64).__floordiv__(self)
+
+    def __rmod__(self, o):
+        return SymScalar(z3.IntVal(int(o)), torch.int64).__mod__(self)
+
     def __pow__(self, e):
-        return self._wrap(torch.pow(self._t(), e))
+        return self._wrap(torch.pow(self._t(), self._other(e)))
+
+    def __rpow__(self, b):
+        return self._wrap(torch.pow(torch.tensor(float(b)) if not isinstance(b, SymScalar) else b._t(), self._t()))
 
     def __abs__(self):
         return self._wrap(torch.abs(self._t()))
@@ -367,6 +411,17 @@ class SymScalar:
 
     def __repr__(self):
         return f"SymScalar({str(self.term)[:80]})"
+
+
+def sym_int(x):
+    """replacement for the builtin `int` in a module under test: truncation toward zero as a symbolic Int"""
+    if isinstance(x, SymScalar):
+        t = x.term
+        if z3.is_int(t):
+            return x
+        r = z3.fpToReal(t) if z3.is_fp(t) else t
+        return SymScalar(z3.If(r >= 0, z3.ToInt(r), -z3.ToInt(-r)), torch.int64)
+    return builtins.int(x)
 
 
 def scalar_out(term, dtype):
@@ -448,7 +503,11 @@ def _binary(fn, *, out="same", floatify=False):
             return mk(vmap(T.mk_or if fn is T.mk_add else T.mk_and, A, B), torch.bool)
         A, B = to_terms(a, dt), to_terms(b, dt)
         R = vmap(fn, A, B)
-        return mk(R, torch.bool if out == "bool" else dt)
+        r = mk(R, torch.bool if out == "bool" else dt)
+        for x in (a, b):
+            if isinstance(x, SymTensor) and getattr(x, "_masked_by", None) is not None:
+                r._masked_by = x._masked_by
+        return r
 
     return h
 
@@ -467,6 +526,23 @@ handler("sub", "__sub__", "subtract", "__isub__")(_sub)
 handler("__rsub__", "rsub")(_reverse(_sub))
 handler("div", "true_divide", "__truediv__", "divide", "__itruediv__")(_div)
 handler("__rtruediv__", "__rdiv__")(_reverse(_div))
+
+
+def _inplace(h):
+    def f(a, b, **kw):
+        if not isinstance(a, SymTensor):
+            raise Unsupported("in-place update of a real tensor with symbolic values")
+        r = h(a, b, **kw)
+        a.sym[...] = to_terms(r, a.dtype)
+        return a
+
+    return f
+
+
+handler("mul_")(_inplace(_mul))
+handler("add_")(_inplace(_add))
+handler("sub_")(_inplace(_sub))
+handler("div_")(_inplace(_div))
 
 
 def _cmp_bool_ok(op):
@@ -852,8 +928,19 @@ def _norm_index1(i):
     return i
 
 
+def _symbolic_mask(idx, shape):
+    """idx is a boolean SymTensor with non-constant entries and the shape of the indexed tensor"""
+    return isinstance(idx, SymTensor) and idx.dtype == torch.bool and tuple(idx.sym.shape) == tuple(shape) and any(T.num_value(x) is None for x in idx.sym.reshape(-1))
+
+
 @handler("__getitem__")
 def _getitem(a, idx):
+    if _symbolic_mask(idx, a.sym.shape):
+        # data-dependent selection `a[mask]`: kept as a full-shape *masked view*; only elementwise updates followed by
+        # `a[mask] = view` (the pattern `a[mask] *= c`) are supported on it
+        v = mk(a.sym.copy(), a.dtype)
+        v._masked_by = idx.sym
+        return v
     r = a.sym[_norm_index(idx)]
     if not isinstance(r, np.ndarray):
         return mk(np.array(r, dtype=object), a.dtype)
@@ -867,6 +954,14 @@ def _setitem(a, idx, value):
             "in-place write of a symbolic value into a real tensor (the harness must provide a symbolic "
             "container via the factory stubs)"
         )
+    if _symbolic_mask(idx, a.sym.shape):
+        v = to_terms(value, a.dtype)
+        if isinstance(value, SymTensor) and getattr(value, "_masked_by", None) is not None:
+            if not all(x.eq(y) for x, y in zip(value._masked_by.reshape(-1), idx.sym.reshape(-1))):
+                raise Unsupported("masked view written back under a different mask")
+        v = np.broadcast_to(v, a.sym.shape)
+        a.sym[...] = vmap(T.mk_ite, idx.sym, v, a.sym)
+        return None
     idx = _norm_index(idx)
     v = to_terms(value, a.dtype)
     a.sym[idx] = v if v.ndim else v[()]
